@@ -3,7 +3,9 @@
    addPenalty/finalize of /repo/src/place_global/net_model.cpp over Q); proofs: coq/QuadProofs.v.
    Labels: [F] proved for all inputs; [R] refuted for the faithful model of the UNCHANGED tree (finding F12:
    net_model.hpp declares std::vector<int> netWeight_); the [F] theorems are about the repaired tree
-   (std::vector<float>), whose addNet stores the weight unchanged.
+   (std::vector<float>, /repo c70f3ac), whose addNet stores the weight unchanged.  The models also follow the repairs of
+   F22 (/repo 7251876: normalize() before finalize(), solver_input / fsolver_input) and of F25 (no star point for a net whose
+   pins are all on one cell: bip_like / fbip_like).
    The binary32 (Flocq) part -- "exactly for powers of two" for the assembly -- is the second half of this file
    (c17_float_*, model coq/QuadFloat.v).
    Not here (validated by runs of checks/c17.py, not proved): what Eigen's single-precision conjugate gradient returns
@@ -88,9 +90,11 @@ Theorem c17_star_least_squares_conv : forall nm x, nm_ok nm -> (forall n, In n (
   solves (create_star0 nm) x.
 Proof. exact star_optimum_conv. Qed.
 
-(* [F] every model is a sequence of addPin calls; whatever the sequence, the assembled system is the normal-equation
-   system of the sum of w/2 (pos1 - pos2)^2 over the calls (this covers B2B, Star, Clique, LightStar around a
-   placement, whose weights w depend on the placement, and addPenalty) *)
+(* [F for sequences of addPin calls from the empty system] whatever the sequence, the assembled system is the
+   normal-equation system of the sum of w/2 (pos1 - pos2)^2 over the calls.  This WOULD cover B2B, Clique around a
+   placement (whose weights w depend on the placement) and addPenalty, but no lemma writes `create m ..` / `add_penalty`
+   as an apply_ops sequence from sys_empty (only create_bipoint0_ops and star0_ops_from exist), and Star / LightStar
+   interleave add_cell, so they are not of that form: the link to those models is not proved. *)
 Theorem c17_addpin_sequence_least_squares : forall n ops x h, Forall (op_ok n) ops -> (forall o, In o ops -> 0 <= p_w o) ->
   length x = n -> length h = n -> solves (apply_ops ops (sys_empty n)) x ->
   ops_energy ops x <= ops_energy ops (vadd x h).
@@ -104,6 +108,33 @@ Proof. exact ops_optimum_conv. Qed.
 (* [F] finalize() only regularises rows that no net touched: a solution of the finalized system solves (M, b) *)
 Theorem c17_finalize_keeps_equations : forall s x, sys_inv s -> solves (finalize s) x -> solves s x.
 Proof. exact solves_finalize_weaken. Qed.
+
+(* [F] MatrixCreator::normalize() (repair of finding F22, /repo 7251876): solve() hands finalize(normalize(s)) to Eigen; the
+   multiplication by the power of two 2^-e does not change the solutions (the 1e-8 regularisation sits on rows without
+   equations: sys_inv, which every assembled system satisfies) *)
+Theorem c17_normalize_keeps_solution_set : forall s, sys_inv s -> forall x, solves (solver_input s) x <-> solves (finalize s) x.
+Proof. exact normalize_solution_set. Qed.
+
+(* [F] finding F25 (repair: no star point for a net whose pins are all on one cell): such a net adds nothing to the system, in
+   every model; a circuit made of such nets assembles to the empty system, every row of which finalize() regularises *)
+Theorem c17_single_cell_net_is_noop : forall n, single_cell (n_pins n) = true ->
+  (forall m pl eps s, add_net_model m pl eps s n = s) /\ (forall s, add_star n s = s) /\
+  (forall s, add_bipoint n s = s) /\ (forall s, add_clique n s = s).
+Proof. exact single_cell_net_noop. Qed.
+
+Theorem c17_single_cell_nets_regularised : forall nm, (forall n, In n (nm_nets nm) -> single_cell (n_pins n) = true) ->
+  (forall m pl eps, create m nm pl eps = sys_empty (nm_cells nm)) /\ create_star0 nm = sys_empty (nm_cells nm) /\
+  s_mat (finalize (sys_empty (nm_cells nm))) = reg_trips (repeat false (nm_cells nm)).
+Proof. exact single_cell_nets_regularised. Qed.
+
+(* [R] BEFORE the repair of F25 (create_star_old: a star point for every net of more than two pins): one movable cell with two
+   nets on it: the rows of the cell and of the two star points are marked non-empty (no regularisation) and the finalized
+   matrix annihilates (0, 1, 1, 1): singular; Eigen's conjugate gradient returns NaN for every cell on it (corpus/C17) *)
+Theorem c17_star_single_cell_singular_refuted_before_repair :
+  s_nz (create_star_old f25_nm [0; 0] 10) = [false; true; true; true] /\
+  (forall i, (i < 4)%nat -> row_sum (Z.of_nat i) (s_mat (finalize (create_star_old f25_nm [0; 0] 10))) [0; 1; 1; 1] == 0) /\
+  create Star f25_nm [0; 0] 10 = sys_empty 2.
+Proof. exact star_single_cell_singular_before_repair. Qed.
 
 (* [R] unchanged tree, netWeight_ is std::vector<int> (add_net_int truncates): all three clauses fail for a net of
    weight 1/2 between cell 0 and a fixed pin at 4 (finding F12) *)
@@ -286,13 +317,44 @@ Theorem c17_float_scaled_system_is_ldexp :
   (forall k v v', sc k v v' -> v' = fldexp v k) /\ (forall k s s', fsys_sc k s s' -> fsys_ldexp k s s').
 Proof. exact fscaled_is_ldexp. Qed.
 
-(* [F] finalize(): the two systems handed to the solver are (A + D, b) and (2^k A + D, 2^k b) with the SAME diagonal D of
+(* [F] finalize() alone (before normalize(), i.e. what the solver received before the repair of F22; with normalize() see
+   c17_float_solver_input_pow2_identical): the two finalized systems are (A + D, b) and (2^k A + D, 2^k b) with the SAME diagonal D of
    1.0e-8f entries on the rows that no addPin call touched (the regularisation is not scaled) *)
 Theorem c17_float_finalize_regularisation_not_scaled : forall k s s', fsys_sc k s s' ->
   exists reg, fs_mat (ffinalize s) = fs_mat s ++ reg /\ fs_mat (ffinalize s') = fs_mat s' ++ reg /\
               reg = freg_trips (fs_nz s) /\
               Forall2 (sc k) (fs_rhs (ffinalize s)) (fs_rhs (ffinalize s')) /\ fs_init (ffinalize s') = fs_init (ffinalize s).
 Proof. exact ffinalize_sc. Qed.
+
+(* [F] normalize() in binary32 (exact ldexp scaling by 2^-e, e = ilogb(max|b_i|) raised to ilogb(max|A_ij|) - 64): two exactly
+   2^k-scaled systems with a non-zero right-hand side are normalised to THE SAME system, bit for bit; so is what solve()
+   hands to Eigen (fsolver_input = ffinalize o fnormalize) *)
+Theorem c17_float_normalize_scaled_identical : forall k s s', fsys_sc k s s' -> fs_ok s' = fs_ok s ->
+  fltb fzero (fmaxabs (fs_rhs s)) = true -> fnormalize s' = fnormalize s /\ fsolver_input s' = fsolver_input s.
+Proof. exact fnormalize_scaled_identical. Qed.
+
+(* [F] the strongest form of the power-of-two clause up to Eigen: inside the window of c17_float_assembly_pow2_exact (fs_ok in
+   both runs) and for a non-zero right-hand side, MatrixCreator::solve passes THE SAME triplets, right-hand side and initial
+   guess to the conjugate gradient for weights/strengths w and 2^k w (for b = 0 Eigen returns x = 0 in both runs) *)
+Theorem c17_float_solver_input_pow2_identical : forall k nm nm', fnm_sc k nm nm' ->
+  (forall m pl eps, fs_ok (fcreate m nm pl eps) = true -> fs_ok (fcreate m nm' pl eps) = true ->
+     fltb fzero (fmaxabs (fs_rhs (fcreate m nm pl eps))) = true ->
+     fsolver_input (fcreate m nm' pl eps) = fsolver_input (fcreate m nm pl eps)) /\
+  (forall m pl eps tg st st' cutoff, Forall2 (sc k) st st' ->
+     fs_ok (fadd_penalty pl tg st cutoff (fcreate m nm pl eps)) = true ->
+     fs_ok (fadd_penalty pl tg st' cutoff (fcreate m nm' pl eps)) = true ->
+     fltb fzero (fmaxabs (fs_rhs (fadd_penalty pl tg st cutoff (fcreate m nm pl eps)))) = true ->
+     fsolver_input (fadd_penalty pl tg st' cutoff (fcreate m nm' pl eps)) = fsolver_input (fadd_penalty pl tg st cutoff (fcreate m nm pl eps))) /\
+  (fs_ok (fcreate_star0 nm) = true -> fs_ok (fcreate_star0 nm') = true ->
+     fltb fzero (fmaxabs (fs_rhs (fcreate_star0 nm))) = true -> fsolver_input (fcreate_star0 nm') = fsolver_input (fcreate_star0 nm)).
+Proof. exact fsolver_input_pow2_identical. Qed.
+
+(* [F] finding F25 in binary32: a net on a single cell adds nothing (values and flag) in the Star, Clique and LightStar models and
+   in the builders without placement (B2B: minPin() returns cell -1 when a pin position is NaN; not covered) *)
+Theorem c17_float_single_cell_net_is_noop : forall n, fsingle_cell (fn_pins n) = true ->
+  (forall m pl eps s, m <> B2B -> fadd_net_model m pl eps s n = s) /\ (forall s, fadd_star n s = s) /\
+  (forall s, fadd_bipoint n s = s) /\ (forall s, fadd_clique n s = s).
+Proof. exact fsingle_cell_net_noop. Qed.
 
 (* [R] the side condition cannot be dropped: underflow breaks exactness.  One cell, one net {cell 0, fixed pin at 0.375}
    of weight (2^23+1) 2^-23, k = -126 (the scaled weight (2^23+1) 2^-149 is a binary32 number): the product
@@ -367,6 +429,18 @@ Proof.
   - apply A. right. rewrite E2, Eh. rewrite Rabs_pos_eq by lra. lra.
 Qed.
 
+(* normalize(), F25 *)
+Example ex_normalize : forall x, solves (solver_input (create B2B ex_nm [3; 7] (1 # 10))) x <-> solves (system B2B ex_nm [3; 7] (1 # 10)) x.
+Proof. intros x. apply c17_normalize_keeps_solution_set. apply create_inv. exact ex_ok. Qed.
+Example ex_normalize_scales : norm_exp (create B2B ex_nm [3; 7] (1 # 10)) = Some 3%Z.
+Proof. vm_compute. reflexivity. Qed.
+Example ex_single_cell : create LightStar f25_nm [0; 0] 10 = sys_empty 2.
+Proof. apply c17_single_cell_nets_regularised. intros n [<-|[<-|[]]]; reflexivity. Qed.
+Example exf_solver_input : forall m, fsolver_input (fcreate m (exf_nm 5) exf_pl exf_eps) = fsolver_input (fcreate m (exf_nm 0) exf_pl exf_eps).
+Proof. intros m. apply (c17_float_solver_input_pow2_identical 5 _ _ exf_scaled); destruct m; vm_compute; reflexivity. Qed.
+Example exf_single_cell : fadd_net_model Star exf_pl exf_eps (fsys_empty 3) (mkFNet (f_of_Z 1) [(1%Z, fzero); (1%Z, f_of_Z 2); (1%Z, f_of_Z (-3))]) = fsys_empty 3.
+Proof. apply c17_float_single_cell_net_is_noop; [reflexivity|discriminate]. Qed.
+
 Print Assumptions c17_assembly_homogeneous.
 Print Assumptions c17_add_net_stores_weight.
 Print Assumptions c17_solution_set_invariant.
@@ -390,3 +464,10 @@ Print Assumptions c17_float_scaled_system_is_ldexp.
 Print Assumptions c17_float_finalize_regularisation_not_scaled.
 Print Assumptions c17_float_pow2_exact_refuted_under_underflow.
 Print Assumptions c17_float_side_condition_by_range.
+Print Assumptions c17_normalize_keeps_solution_set.
+Print Assumptions c17_single_cell_net_is_noop.
+Print Assumptions c17_single_cell_nets_regularised.
+Print Assumptions c17_star_single_cell_singular_refuted_before_repair.
+Print Assumptions c17_float_normalize_scaled_identical.
+Print Assumptions c17_float_solver_input_pow2_identical.
+Print Assumptions c17_float_single_cell_net_is_noop.
